@@ -534,3 +534,11 @@ CORPUS += [
     V("C01", "mdcpdp-back-flag-above-the-depot-count", _MD, "        back_flag = (current_node < num_depot) & (", "        back_flag = (current_node > num_depot) & (", "C01.n"),
     V("C01", "eq-mdcpdp-back-flag-mirrored", _MD, "        back_flag = (current_node < num_depot) & (", "        back_flag = (num_depot > current_node) & (", None),
 ]
+_OPG = R + "op/generator.py"
+_CU = "rl4co/envs/common/utils.py"
+CORPUS += [
+    V("C18", "op-prize-type-dispatch-inverted", _OPG, '        if self.prize_type == "const":', '        if self.prize_type != "const":', "C18.l"),
+    V("C18", "op-prize-type-second-branch-inverted", _OPG, '        elif self.prize_type == "unif":', '        elif self.prize_type != "unif":', "C18.l"),
+    V("C18", "sampler-dispatch-inverted", _CU, 'distribution == "gaussian_mixture"', 'distribution != "gaussian_mixture"', "C18"),
+    V("C18", "eq-op-prize-type-membership", _OPG, '        if self.prize_type == "const":', '        if self.prize_type in ("const",):', None),
+]
